@@ -6,18 +6,25 @@ use std::collections::{BTreeMap, HashMap};
 use std::fmt::Debug;
 use std::hash::{Hash, Hasher};
 
-/// Hasher that records every write call verbatim.
+/// Hasher that records every call verbatim: *which* `Hasher` method was called and with what bytes.  A portable or
+/// type-tagging hasher treats `write_usize` and `write_u64` differently (and they differ on a 32-bit target), so
+/// "feeds a hasher exactly what hashing its slice feeds it" is about the calls, not only the byte stream.
 #[derive(Default)]
 struct RecHasher {
-    writes: Vec<Vec<u8>>,
+    writes: Vec<(&'static str, Vec<u8>)>,
+}
+macro_rules! rec_methods {
+    ($($m:ident: $t:ty),*) => { $(fn $m(&mut self, i: $t) { self.writes.push((stringify!($m), i.to_ne_bytes().to_vec())); })* };
 }
 impl Hasher for RecHasher {
     fn finish(&self) -> u64 {
         0
     }
     fn write(&mut self, bytes: &[u8]) {
-        self.writes.push(bytes.to_vec());
+        self.writes.push(("write", bytes.to_vec()));
     }
+    rec_methods!(write_u8: u8, write_u16: u16, write_u32: u32, write_u64: u64, write_u128: u128, write_usize: usize,
+                 write_i8: i8, write_i16: i16, write_i32: i32, write_i64: i64, write_i128: i128, write_isize: isize);
 }
 
 fn build<T: Clone, N: ArrayLength>(alphabet: &[T], mut code: usize) -> GA<T, N> {
